@@ -65,7 +65,10 @@ fn plan(mix: Mix, thread: usize, ops: usize, rng: &mut Rng) -> ThreadPlan {
     };
     for i in 0..ops {
         match mix {
-            Mix::ListConservation => match rng.below(10) {
+            Mix::ListConservation => match rng.below(12) {
+                // operations that only permute the list: the multiset of elements is conserved across them
+                10 => script.push_str("L.sort()\n"),
+                11 => script.push_str("L.reverse()\n"),
                 0..=2 => {
                     let id = next_id(&mut counter);
                     script.push_str(&format!("L.push {id}\n"));
